@@ -251,6 +251,42 @@ def fork_fail_join(kind):
     return joiner(fork_thread(raiser(kind, "fj")))
 
 
+# the forking job concludes (returns the Thread) while a MULTI-STEP expression keeps being evaluated under it
+@task()
+def fork_seq(n):
+    return fork_thread(seq([inc(i) for i in range(n)]))
+
+
+@task()
+def fork_cond(x):
+    return fork_thread(cond(inc(x) == 1, twice(10), neg(inc(x))))
+
+
+@task()
+def fork_map(n):
+    return fork_thread(map_(inc, mklist(n)))
+
+
+@task()
+def fork_catch(kind):
+    return fork_thread(catch(inc(raiser(kind, "fc")), Exception, rec_val))
+
+
+@task()
+def fork_lazy_call(x):
+    return fork_thread(first([inc, x])(x))
+
+
+@task()
+def fork_deep(n, kind):
+    return fork_thread(seq([inc(1), fail_after(n, kind), inc(2)]))
+
+
+@task()
+def join_all(ths):
+    return [join_thread(th) for th in ths]
+
+
 @task()
 def tagit(x):
     return apply_tags(inc(x), tags=[("tk", "tv")], job_tags=[("jk", 1)], execution_tags=[("ek", "ev")])
